@@ -282,7 +282,7 @@ static int ratom_match(struct ratom *ra, struct rstate *rs)
 		char *r = rs->s;
 		while (*s && *s == *r)
 			s++, r++;
-		if (*s)
+		if (*s || ((unsigned char) *r & 0xc0) == 0x80)	/* inside a character */
 			return 1;
 		rs->s = r;
 		return 0;
@@ -296,7 +296,7 @@ static int ratom_match(struct ratom *ra, struct rstate *rs)
 				c1 = tolower(c1);
 			if (rs->flg & REG_ICASE && c2 < 128 && isupper(c2))
 				c2 = tolower(c2);
-			if (c1 != c2)
+			if (c1 != c2 || uc_len(ra->s + pos) != uc_len(rs->s + pos))
 				return 1;
 			pos += uc_len(ra->s + pos);
 		}
